@@ -1230,7 +1230,9 @@ def compile_with_expression(compiler, expr, root, args, body):
 
     if not cbody:
         cbody = compiler._compile_branch(body)
-        cbody += asty.Assign(expr, targets=[name], value=cbody.force_expr)
+    # (If `cbody` is a nested `with`, its value is that `with`'s own
+    # tempvar, which we need to copy to ours.)
+    cbody += asty.Assign(expr, targets=[name], value=cbody.force_expr)
 
     node = asty.AsyncWith if was_async else asty.With
     ret += node(expr, body=cbody.stmts, items=items)
